@@ -1,8 +1,36 @@
-//! dirsim engine. See /verif/DESIGN.md section 2 and /verif/harness/AGENT_GUIDE.md.
+//! dirsim: random directory write histories on 1-3 real replicas with simulated time; monitors
+//! over full dumps after every commit. See /verif/DESIGN.md section 5.0.
+#[macro_use]
+extern crate kanidmd_lib;
+
+mod c03;
+mod c07;
+mod c08;
+mod c26;
+mod explore;
+mod mon;
+mod props;
+mod sim;
+mod world;
 
 fn main() {
     let args = kvcore::parse_args();
+    if std::env::var("VERIF_LOG").is_ok() {
+        sketching::test_init();
+    }
     match args.prop.as_str() {
+        "explore" => explore::run(args),
+        "C03" => c03::c03(args),
+        "C07" => c07::c07(args),
+        "C08" => c08::c08(args),
+        "C09" => c26::c09(args),
+        "C26" => c26::c26(args),
+        "C15" => props::c15(args),
+        "C16" => props::c16(args),
+        "C17" => props::c17(args),
+        "C18" => props::c18(args),
+        "C19" => props::c19(args),
+        "C22" => props::c22(args),
         p => {
             println!("INCONCLUSIVE property={p} reason=dirsim does not serve this property yet");
             std::process::exit(2);
